@@ -468,6 +468,12 @@ class Gen:
             if s is None:
                 continue
             st, f, c, nl, term = s
+            if term and getattr(self.p, "closed_blocks", False):
+                # (known findings C01: a finish / break right behind a statement that can match nothing is lost on the path
+                # where it matches nothing)
+                cons = [x for x in stmts if x[0] not in ("assign", "assigns", "delete", "hook", "appc") and not (x[0] == "if" and all_actions(x))]
+                if cons and last_nullable(cons[-1]):
+                    continue
             stmts.append(st)
             self.prev_definite = st[0] == "match" and st[1][0] in ("lit", "casei", "bin")
             if f is not None:
@@ -486,14 +492,14 @@ class Gen:
             j = len(stmts)
             while j > 0 and stmts[j - 1][0] in ("assign", "assigns", "delete", "hook", "appc") or (j > 0 and stmts[j - 1][0] == "if" and all_actions(stmts[j - 1])):
                 j -= 1
-            if j > 0 and stmts[j - 1][0] in ("optional", "match", "append", "if", "try", "foreach", "case") and last_nullable(stmts[j - 1]):
+            if j > 0 and stmts[j - 1][0] in ("optional", "match", "append", "wait", "if", "try", "foreach", "case") and last_nullable(stmts[j - 1]):
                 ds = [x for x in DELIMS[:6] if x not in prev_cont]
                 d = bytes([ds[0] if ds else 35])
                 stmts.append(("match", ("lit", d)))
                 if nullable:
                     first |= {d[0]}
                 nullable = False; prev_cont = set()
-        if min_consume and nullable:
+        if min_consume and nullable and not (stmts and stmts[-1][0] in ("finish", "break")):
             bs = self.lit_bytes(alphabet=DELIMS[:6])
             bs = bytes([b for b in bs if b not in prev_cont]) or bytes([r.choice([x for x in DELIMS[:6] if x not in prev_cont] or [59])])
             stmts.append(("match", ("lit", bs)))
@@ -724,12 +730,20 @@ def pat_nullable(p):
     return False
 
 
+def pat_tail_nullable(p):
+    """the pattern, or the last component of a concatenation, can match nothing"""
+    if p[0] == "concat":
+        return pat_nullable(p) or pat_tail_nullable(p[1][-1])
+    return pat_nullable(p)
+
+
 def last_nullable(s):
-    """can this statement complete without consuming anything (its end is then found by lookahead from its very start)?"""
+    """can this statement (or its final part) complete without consuming anything?"""
     k = s[0]
     if k == "optional": return True
-    if k == "match": return pat_nullable(s[1])
-    if k == "append": return pat_nullable(s[2])
+    if k == "match": return pat_tail_nullable(s[1])
+    if k == "append": return pat_tail_nullable(s[2])
+    if k == "wait": return pat_tail_nullable(s[1])
     def blk(b):
         cons = [x for x in b if x[0] not in ("assign", "assigns", "delete", "hook", "appc", "finish", "break", "yield")]
         return all(last_nullable(x) for x in cons)
